@@ -63,7 +63,7 @@ def _sqrt(x):
         if V.PATH[0] is None:
             return math.sqrt(x)
         x = Sym(V.lift(Fraction(x)))      # irrational: keep it symbolic (sqrt(3) is not 1.7320508075688772)
-    f = uf("sqrt", R, R)
+    f = uf("u_sqrt", R, R)
     t = V.to_real(x).t
     res = Sym(f(t))
     p = V.PATH[0]
@@ -77,12 +77,12 @@ def _trig(name):
     def f(x):
         if not is_sym(x):
             return getattr(math, name)(float(x))
-        g = uf(name, R, R)
+        g = uf("u_" + name, R, R)
         t = V.to_real(x).t
         res = Sym(g(t))
         p = V.PATH[0]
         if p is not None:
-            s, c = Sym(uf("sin", R, R)(t)), Sym(uf("cos", R, R)(t))
+            s, c = Sym(uf("u_sin", R, R)(t)), Sym(uf("u_cos", R, R)(t))
             p.assume(V.compare("==", s * s + c * c, 1))
         return res
     return f
@@ -97,7 +97,7 @@ def _exp(x):
             import cmath
             return cmath.exp(x)
         return math.exp(float(x))
-    g = uf("exp", R, R)
+    g = uf("u_exp", R, R)
     res = Sym(g(V.to_real(x).t))
     p = V.PATH[0]
     if p is not None:
@@ -492,7 +492,7 @@ def _next(interp, it, *default):
 # ---------------------------------------------------------------------------
 # math
 
-REG["math.pi"] = Sym(z3.Real("pi"))      # only ever used symbolically (pi is irrational)
+REG["math.pi"] = Sym(z3.Real("PI"))      # only ever used symbolically (pi is irrational)
 REG["math.ceil"] = lambda x: V.ceil_(x)
 REG["math.floor"] = lambda x: V.floor_(x)
 REG["math.sqrt"] = _sqrt
